@@ -492,3 +492,49 @@ def _(tier, rng):
             for ns, nn, nq in ((['##any'], [], []), (['##other'], [], []), (['urn:a', ''], [], []), ([], ['urn:a'], []), (['##any'], [], ['{urn:a}x']), ([], [], [])):
                 if ver == '1.0' and (nn or nq): continue
                 for pc in ('strict', 'lax'): yield dict(ver=ver, kind=kind, namespace=ns, not_namespace=nn, not_qname=nq, pc=pc)
+
+
+# ------------------------------------------------------------------ Xsd11AnyElement.is_matching: the XSD 1.1 element wildcard's own name test (C16, C01)
+t = Target('wildcards.Xsd11AnyElement.is_matching', ['C16', 'C01'], F, 'Xsd11AnyElement.is_matching',
+           note='the override used by XSD 1.1 content models: whatever precedences, ##defined / ##definedSibling exclusions and notQName say, a name is matched ONLY IF its namespace - the '
+                'namespace of an expanded or empty name, the default namespace of a local name, else the absent namespace - is admitted by the constraint; and when none of the exclusions applies '
+                '(no precedence registered for the group, no ##defined keyword, no group given, the name not listed) it is matched EXACTLY then',
+           assumes=['is_namespace_allowed as proved (callee contract); the precedence table, the global element map and the group are uninterpreted'])
+
+
+@t.symbolic
+def _(run):
+    ex, st, pre, A0, tw, to = setup(run, qual='Xsd11AnyElement.is_matching')
+    name = z3.String('name'); dns = z3.String('dns')
+    has_prec, group_none, is_global = z3.Bool('group_has_precedences'), z3.Bool('group_is_None'), z3.Bool('name_is_a_global_element')
+    prec_hit, sib_hit = z3.Bool('a_preceding_element_takes_the_name'), z3.Bool('a_sibling_declares_the_name')
+    st.env.update(name=VStr(name), default_namespace=VOpt(z3.Bool('dns_none'), VStr(dns)), group=VOpt(group_none, VObj('group')), occurs=VOpt(z3.Bool('occurs_none'), VObj('occurs')))       # name is not None (None: False at once)
+    st.objf['group'] = {}; st.objf['occurs'] = {}
+    orig_compare, orig_call = ex.e_Compare, ex.e_Call
+
+    def e_Compare(e, s):
+        src = ast.unparse(e)
+        if src == 'group in self.precedences': return VBool(z3.And(z3.Not(group_none), has_prec))
+        if src == 'name in self.maps.elements': return VBool(is_global)
+        return orig_compare(e, s)
+    ex.e_Compare = e_Compare
+
+    def e_Call(e, s):
+        if isinstance(e.func, ast.Name) and e.func.id == 'any' and e.args and isinstance(e.args[0], ast.GeneratorExp):
+            it = ast.unparse(e.args[0].generators[0].iter)
+            if it == 'self.precedences[group]': return VBool(prec_hit)
+            if it == 'group.iter_elements()': return VBool(sib_hit)
+            raise Unsupported('generator over ' + it)
+        return orig_call(e, s)
+    ex.e_Call = e_Call
+    Dself = lambda xx: den(A0['self', 'namespace'], A0['self', 'not_namespace'], tw, xx)
+    pre2 = z3.And(pre, ns_of(name) != XSI, dns != XSI, ns_of(name) != ANY, ns_of(name) != OTHER, dns != ANY, dns != OTHER, z3.Not(z3.PrefixOf(SV('##'), name)),
+                  z3.Implies(z3.And(z3.Not(z3.Bool('dns_none')), dns != E, name != E, z3.Not(z3.PrefixOf(SV('{'), name))), ns_of(z3.Concat(SV('{'), dns, SV('}'), name)) == dns))
+    outs = ex.run(st, pre2)
+    ns_ok = z3.If(z3.Or(name == E, z3.PrefixOf(SV('{'), name)), Dself(ns_of(name)), z3.If(z3.Or(z3.Bool('dns_none'), dns == E), Dself(E), Dself(dns)))
+    full = z3.If(z3.Or(name == E, z3.PrefixOf(SV('{'), name), z3.Bool('dns_none'), dns == E), name, z3.Concat(SV('{'), dns, SV('}'), name))
+    no_exclusion = z3.And(z3.Or(group_none, z3.Not(has_prec)), z3.Not(A0['self', 'not_qname'][SV('##defined')]), group_none, z3.Not(A0['self', 'not_qname'][full]))
+
+    def sound(kind, v, s): return z3.Implies(v.t, ns_ok) if kind == 'return' else z3.BoolVal(False)
+    def exact(kind, v, s): return z3.Implies(no_exclusion, v.t == ns_ok) if kind == 'return' else z3.BoolVal(False)
+    run.post(ex, outs, pre2, {'matched-only-if-the-namespace-is-admitted': sound, 'without-exclusions-matched-exactly-then': exact})
